@@ -1,7 +1,8 @@
 """Fixture classes for C09 (imported by class_path, so they live in a real module).
 
 Plain Python: nothing here uses jsonargparse, so importing the module keeps the process pristine."""
-from dataclasses import dataclass
+from dataclasses import dataclass, field
+from typing import Optional
 
 
 class Base:
@@ -50,6 +51,32 @@ class Unrelated:
 class Opts:
     lr: float = 0.1
     steps: int = 3
+
+
+@dataclass
+class Pt:
+    """Dataclass with two defaulted fields: a PARTIAL value ({"a": 6}) is completed from the defaults (world dcl)."""
+
+    a: int = 1
+    b: int = 2
+
+
+@dataclass
+class Nest:
+    """Dataclass with a nested dataclass field."""
+
+    k: int = 0
+    inner: Pt = field(default_factory=Pt)
+
+
+class DcUser:
+    """Signature with dataclass-like values INSIDE type hints (Optional[Pt], Optional[Nest]) and a plain dataclass
+    parameter (expanded into a nested group)."""
+
+    def __init__(self, d: Optional[Pt] = None, e: Pt = Pt(a=3, b=4), n: Optional[Nest] = None):
+        self.d = d
+        self.e = e
+        self.n = n
 
 
 class Src:
